@@ -1056,11 +1056,13 @@ class ForallGuard:
     / `iter().all(|x| check(x))` over the field with a closure that returns the check's verdict — the accepting edge is
     the `any == false` / `all == true` side (polarity chosen from `steps`)."""
 
-    def __init__(self, field, check_pats, steps, label):
+    def __init__(self, field, check_pats, steps, label, check=None, source_calls=None):
         self.field = field
-        self.check_pats = list(check_pats)
-        self.steps = tuple(steps)
+        self.check_pats = list(check_pats or [])
+        self.steps = tuple(steps or ())
         self.label = label
+        self.check = check                # any guard object instead of a call pattern (loop form only)
+        self.source_calls = source_calls  # the iterated collection is the result of one of these calls (instead of a field)
         self.forms = []
 
     def _source_ok(self, F, body, local):
@@ -1068,7 +1070,8 @@ class ForallGuard:
         for it in ta.ref_of.get(local, {local}) | {local}:
             names, fields = _chain_calls(F, body, it)
             dropped = [n for n in names if any(n.endswith(x) or (x + "<") in n for x in DROPPING_ADAPTORS)]
-            if self.field in fields and not dropped:
+            from_src = (self.field in fields) if self.source_calls is None else any(pat_match(n, self.source_calls) for n in names)
+            if from_src and not dropped:
                 return True
         return False
 
@@ -1078,7 +1081,7 @@ class ForallGuard:
         g = cfg_of(body)
         acc, rej, n = set(), set(), 0
         self.forms = []
-        chk = CallGuard(self.check_pats, self.steps)
+        chk = self.check if self.check is not None else CallGuard(self.check_pats, self.steps)
         cn, cacc, crej = chk.edges(body)
         for nb in body.blocks:
             t = nb["term"]
@@ -1102,7 +1105,7 @@ class ForallGuard:
                 acc |= tr.accept
                 rej |= crej
                 self.forms.append("loop")
-            elif gen.endswith("iterator::Iterator::any") or gen.endswith("iterator::Iterator::all"):
+            elif self.check is None and (gen.endswith("iterator::Iterator::any") or gen.endswith("iterator::Iterator::all")):
                 is_any = gen.endswith("::any")
                 if not self._source_ok(F, body, op_local(t["args"][0])):
                     continue
